@@ -103,7 +103,13 @@ func (c *Ctx) info(fn *ssa.Function) *fnInfo {
 	fi.intrinsic = c.intrinsics[fi.name]
 	if fn.Name() == "ProtoReflect" && fn.Signature.Recv() != nil && len(fn.Params) == 1 {
 		if pt, ok := fn.Signature.Recv().Type().(*types.Pointer); ok {
-			if st, ok := pt.Elem().Underlying().(*types.Struct); ok {
+			harnessType := false
+			if nt, ok := pt.Elem().(*types.Named); ok {
+				n := nt.Obj().Name()
+				harnessType = strings.HasPrefix(n, "verif") || strings.HasPrefix(n, "Verif")
+			}
+			// generated messages only: harness fakes implement ProtoReflect themselves
+			if st, ok := pt.Elem().Underlying().(*types.Struct); ok && !harnessType {
 				fi.pbReflect = st
 			}
 		}
